@@ -168,12 +168,14 @@ def build_expression(
                 # tan(x - (pi - 10)) became tan(x). Evaluate such an argument first.
                 args = [sp.sympify(arg) for arg in args]
                 args = [arg.doit() if arg.has(sp.pi) else arg for arg in args]
-            if funcname == "exp":
+            if funcname in ("exp", "sqrt"):
                 # exp(x + c) is split into exp(c) * exp(x) when it is created, two factors
-                # that over- or underflow on their own: exp(x + 800.0) became inf*exp(x)
+                # that over- or underflow on their own: exp(x + 800.0) became inf*exp(x).
+                # sqrt(x**-2) becomes the reciprocal 1/Abs(x), and the reciprocal of that is
+                # printed without parentheses: 1/sqrt(x**-2) became 1/1/numpy.abs(x)
                 args = [sp.sympify(arg) for arg in args]
                 if not all(arg.is_number for arg in args):
-                    return sp.exp(*args, evaluate=False)
+                    return getattr(sp, funcname)(*args, evaluate=False)
             return getattr(sp, funcname)(*args)
 
         if tree.data == "logicalfunc":
